@@ -73,6 +73,26 @@ def closure_recorder(tag, kind="fresh"):
     return draw
 
 
+class FalsyAssignment:
+    """A perfectly good callable whose truth value happens to be False (like numpy.poly1d of order 0, or any
+    callable container that is empty): assignment = value + sum of tanh(parents)."""
+
+    def __init__(self, value, blocks):
+        self.value = value
+        self.blocks = blocks
+
+    def __len__(self):
+        return 0
+
+    def __call__(self, Xb):
+        if self.blocks is not None:
+            self.blocks.append(np.array(Xb, copy=True))
+        return self.value + np.tanh(np.asarray(Xb, dtype=float)).sum(axis=1)
+
+    def __deepcopy__(self, memo):
+        return FalsyAssignment(self.value, self.blocks)          # keep logging into the checker's list
+
+
 def make_assignment(spec, blocks=None):
     """Assignment function from its JSON spec; if `blocks` is a list, every block handed in is recorded."""
     kind = spec["kind"]
@@ -81,6 +101,8 @@ def make_assignment(spec, blocks=None):
     if kind == "null":
         import sempler.functions as functions
         return functions.null
+    if kind == "falsy":
+        return FalsyAssignment(float(spec["value"]), blocks)
 
     def f(Xb):
         if blocks is not None:
@@ -165,6 +187,10 @@ def check(case):
     depth2 = any(pa[j] for i in range(p) for j in pa[i])
     cancelling = any(len(pa[i]) >= 2 and abs(A[pa[i], i].sum()) < 1e-12 for i in range(p))
     asym = any(len(pa[i]) >= 2 and case["assign"][i]["kind"] in ("lin", "prod", "inplace") for i in range(p))
+    if p >= 17:
+        lab.append("p_ge_17")
+    if any(case["assign"][i]["kind"] == "falsy" for i in range(p)):
+        lab.append("falsy_callable")
     if any(case["assign"][i]["kind"] == "inplace" for i in range(p)):
         lab.append("inplace_assignment")
     if any(len(pa[i]) >= 2 and max(pa[i]) >= 8 and min(pa[i]) < 8 for i in range(p)):
@@ -264,12 +290,15 @@ def _nontrivial(case, labels):
 
 @st.composite
 def anm_case(draw, p_max):
-    src = draw(st.sampled_from(["weighted", "weighted", "binary", "embedded", "embedded"]))
+    src = draw(st.sampled_from(["weighted", "weighted", "binary", "embedded", "embedded", "wide"]))
     if src == "binary":
         case = {"A": draw(S.dag_pattern(1, p_max)), "dtype": draw(st.sampled_from(["int", "float"]))}
     elif src == "weighted":
         W, cls = draw(S.weighted_dag(1, p_max, classes=("unit", "smallint", "dyadic", "cancelling", "cancelling", "tiny")))
         case = {"W": W, "dtype": draw(st.sampled_from(["int", "float"]))}
+    elif src == "wide":
+        W, cls = draw(S.weighted_dag(4, 8, classes=("unit", "dyadic", "cancelling"), shapes=("chain", "collider", "dense", "random")))
+        case = {"W": draw(S.embedded_wide(W)), "dtype": "float"}
     else:
         W, cls = draw(S.weighted_dag(3, 6, classes=("unit", "dyadic", "cancelling", "tiny"), shapes=("collider", "dense", "random")))
         case = {"W": draw(S.embedded(W, 9, 12)), "dtype": "float"}
@@ -282,7 +311,10 @@ def anm_case(draw, p_max):
         if k == 0:
             assign.append({"kind": draw(st.sampled_from(["none", "null", "zero"])), "ret": draw(st.sampled_from(["vec", "col"]))})
             continue
-        kind = draw(st.sampled_from(["lin", "lin", "lin", "prod", "const", "inplace"]))
+        kind = draw(st.sampled_from(["lin", "lin", "lin", "prod", "const", "inplace", "falsy"]))
+        if kind == "falsy":
+            assign.append({"kind": "falsy", "value": draw(st.integers(-8, 8)) / 4.0})
+            continue
         if kind == "const":
             assign.append({"kind": "const", "value": draw(st.integers(-8, 8)) / 4.0})
             continue
@@ -300,7 +332,8 @@ def anm_case(draw, p_max):
     for _ in range(draw(st.sampled_from([1, 2, 2, 3]))):
         call = {"do": {}, "shift": {}, "noise": {}}
         k = draw(st.sampled_from([0, 1, 1, 2, 3]))
-        tg = draw(st.lists(st.integers(0, p - 1), min_size=min(k, p), max_size=min(k, p), unique=True))
+        active = [i for i in range(p) if pa[i] or any(i in pa[j] for j in range(p))] or list(range(p))
+        tg = draw(st.lists(st.sampled_from(active) if p > 12 else st.integers(0, p - 1), min_size=min(k, len(active)), max_size=min(k, len(active)), unique=True))
         for t in tg:
             cls_t = draw(st.sampled_from(["do", "shift", "noise", "do+shift", "do+noise", "do+shift", "do+noise"]))
             for nm in cls_t.split("+"):
